@@ -1114,13 +1114,15 @@ def test_static_sweep(work):
         sys.stderr = old_err
         devnull.close()
     check(generated >= 60, generated)
-    check(known["imports-late"] > 0 and known["unused-import"] > 0, known)
+    check(known["unused-import"] > 0, known)  # imports-late was a generator defect, repaired in /repo (fix: Go optimization-mode ... imports)
     # the import-ordering defect is specific to -O mode
     check(g.static_check_text(open(f"{work}/go_std/main_bp.go").read(),
                               {"shared": g.parse_file(open(f"{work}/go_std/shared_bp.go").read()),
                                "bb": g.parse_file(open(f"{work}/go_std/base2_bp.go").read())}) == [])
     probs = g.static_check_text(open(f"{work}/go_opt/main_bp.go").read())
-    check(len(probs) == 2 and all("import declaration after" in p for p in probs), probs)
+    check(probs == [], probs)  # the -O import-ordering defect was repaired in /repo
+    late = "package p\nvar x = 1\nimport \"strconv\"\nvar y = strconv.Itoa\n"
+    check(any("import declaration after" in p for p in g.static_check_text(late)), "late import not reported")
     # field/method name collision produced by the generator for a field called `size`
     probs = g.static_check_text(open(f"{work}/go_std/collide_bp.go").read())
     check(len(probs) == 1 and "field and method with the same name Size" in probs[0], probs)
